@@ -259,6 +259,19 @@ func runC08(r *Run) {
 	r.Rule("C08.R3")
 	c08Edges(r)
 
+	// ---- R4: optional parts of backend replies
+	r.Rule("C08.R4")
+	r.Assume("library callees outside the module (proto.Marshal, prototext.Format, fmt) accept nil messages")
+	nOpt := r.NilOptional(func(fn *ssa.Function) bool {
+		pk := fnPkg(fn)
+		return pk != nil && ShortPkg(pk.Path()) == "trillian/ctfe"
+	}, "github.com/google/trillian*")
+	r.Floor("optional backend-reply parts used in ctfe", nOpt, 6)
+
+	// ---- R7: backend errors reach toHTTPStatus with their gRPC status intact
+	r.Rule("C08.R7")
+	c08StatusCarried(r)
+
 	// ---- R6
 	r.Rule("C08.R6")
 	if fn := r.Fn("(*trillian/ctfe.logInfo).SendHTTPError"); fn != nil {
@@ -399,4 +412,146 @@ func short(fn string) string {
 		return fn[i+1:]
 	}
 	return fn
+}
+
+// c08StatusCarried: between a backend RPC and the handler's toHTTPStatus(err)
+// the error must travel unchanged.  A function of package ctfe that returns a
+// backend error (directly, through a callee that does, or through any module
+// implementation of an interface method that does) and has no status result
+// of its own must return that very value — formatting it into a new error
+// (fmt.Errorf with %v/%s, errors.New) discards the gRPC status and turns
+// 429/503/504/4xx into 500.
+func c08StatusCarried(r *Run) {
+	inCtfe := func(fn *ssa.Function) bool {
+		pk := fnPkg(fn)
+		return pk != nil && ShortPkg(pk.Path()) == "trillian/ctfe" && len(fn.Blocks) > 0
+	}
+	errT := types.Universe.Lookup("error").Type()
+	carriers := map[*ssa.Function]bool{}
+	e := newNilEngine(r)
+	// isBackendErr: v is (a merge of) the error result of an RPC or of a carrier
+	var isBackendErr func(v ssa.Value, depth int) bool
+	isBackendErr = func(v ssa.Value, depth int) bool {
+		if depth > 4 {
+			return false
+		}
+		switch x := v.(type) {
+		case *ssa.Phi:
+			for _, ed := range x.Edges {
+				if isBackendErr(ed, depth+1) {
+					return true
+				}
+			}
+		case *ssa.Extract:
+			call, ok := x.Tuple.(*ssa.Call)
+			if !ok || !types.Identical(x.Type(), errT) {
+				return false
+			}
+			if glob("iface(trillian.TrillianLogClient).*", CalleeOf(call)) {
+				return true
+			}
+			if f := call.Call.StaticCallee(); f != nil && carriers[f] {
+				return true
+			}
+			if call.Call.IsInvoke() {
+				for _, f := range e.impls(&call.Call) {
+					if carriers[f] {
+						return true
+					}
+				}
+			}
+		}
+		return false
+	}
+	for changed := true; changed; {
+		changed = false
+		for _, fn := range r.P.ModFuncs {
+			if !inCtfe(fn) || carriers[fn] {
+				continue
+			}
+			for _, ret := range Returns(fn) {
+				n := len(ret.Results)
+				if n > 0 && types.Identical(ret.Results[n-1].Type(), errT) && isBackendErr(ret.Results[n-1], 0) {
+					carriers[fn] = true
+					changed = true
+				}
+			}
+		}
+	}
+	// wrapped: a constructed error whose format arguments include a backend error
+	wraps := func(v ssa.Value) (bool, ssa.Instruction) {
+		call, ok := v.(*ssa.Call)
+		if !ok {
+			return false, nil
+		}
+		f := call.Call.StaticCallee()
+		if f == nil || !nonNilMakers[FuncName(f)] {
+			return false, nil
+		}
+		for _, a := range call.Call.Args {
+			sl, ok := a.(*ssa.Slice)
+			if !ok {
+				continue
+			}
+			al, ok := sl.X.(*ssa.Alloc)
+			if !ok {
+				continue
+			}
+			for _, ref := range *al.Referrers() {
+				ia, ok := ref.(*ssa.IndexAddr)
+				if !ok {
+					continue
+				}
+				for _, r2 := range *ia.Referrers() {
+					if st, ok := r2.(*ssa.Store); ok {
+						val := st.Val
+						if mi, ok := val.(*ssa.MakeInterface); ok {
+							val = mi.X
+						}
+						if ci, ok := val.(*ssa.ChangeInterface); ok {
+							val = ci.X
+						}
+						if isBackendErr(val, 0) {
+							return true, call
+						}
+					}
+				}
+			}
+		}
+		return false, nil
+	}
+	n := 0
+	for _, fn := range r.P.ModFuncs {
+		if !inCtfe(fn) {
+			continue
+		}
+		res := fn.Signature.Results()
+		hasStatus := false
+		for i := 0; i < res.Len(); i++ {
+			if b, ok := res.At(i).Type().Underlying().(*types.Basic); ok && b.Kind() == types.Int {
+				hasStatus = true
+			}
+		}
+		if hasStatus {
+			continue // computes the status itself, next to the (possibly wrapped) error
+		}
+		for _, ret := range Returns(fn) {
+			k := len(ret.Results)
+			if k == 0 || !types.Identical(ret.Results[k-1].Type(), errT) {
+				continue
+			}
+			ev := ret.Results[k-1]
+			if isBackendErr(ev, 0) {
+				n++
+				r.Funcs[FuncName(fn)] = true
+				r.Pass("status-carried:"+FuncName(fn), r.Where(ret), "returns the backend error unchanged: "+r.D.D(ev))
+				continue
+			}
+			if w, at := wraps(ev); w {
+				n++
+				r.Fail("status-carried:"+FuncName(fn), r.Where(at), "a backend error is formatted into a new error before toHTTPStatus sees it: its gRPC status (429/503/504/4xx) is lost and the request is answered 500")
+			}
+		}
+	}
+	r.Floor("functions relaying backend errors", n, 4)
 }
